@@ -270,7 +270,34 @@ pub fn generate(rng: &mut Rng) -> Workload {
     }
 
     // ---- types ----------------------------------------------------------------------------------
-    let types = "struct Elem\n{\n    uint m;\n    float w;\n};\n".to_string();
+    let mut types = "struct Elem\n{\n    uint m;\n    float w;\n};\n".to_string();
+    // enums whose underlying type has to be deduced from several enumerators of different kinds (signed, unsigned on both
+    // sides of INT_MAX, implicit successors, references to earlier enumerators): any fold over an unordered container shows
+    for e in 0..1 + rng.below(3) {
+        let n = 2 + rng.below(5);
+        let mut parts = Vec::new();
+        let mut probe = Vec::new();
+        let style = rng.below(4);
+        for v in 0..n {
+            let name = format!("EN{}_V{}", e, v);
+            let value = match (style, rng.below(6)) {
+                (_, 0) => String::new(),
+                (0, _) => format!(" = {}", rng.below(100)),
+                (1, k) => format!(" = {}", ["1u", "7u", "0x7FFFFFFFu", "0x80000000u", "0xFFFFFFFFu", "2147483648u"][k]),
+                (2, k) => format!(" = {}", ["-1", "5", "-2147483647", "2147483647", "0", "100"][k]),
+                (_, k) => {
+                    if v > 0 && k < 3 {
+                        format!(" = EN{}_V{} + 1", e, rng.below(v))
+                    } else {
+                        format!(" = {}", ["3u", "0x80000001u", "1", "40u", "0xF0000000u", "9"][k])
+                    }
+                }
+            };
+            parts.push(format!("    {}{},", name, value));
+            probe.push(format!("(uint)EN{}::{}", e, name));
+        }
+        types.push_str(&format!("enum EN{}\n{{\n{}\n}};\nuint enum_probe{}() {{ return {}; }}\n", e, parts.join("\n"), e, probe.join(" + ")));
+    }
 
     // ---- static / groupshared globals -----------------------------------------------------------
     let n_static = 5 + rng.below(5);
